@@ -1042,6 +1042,12 @@ func (f *frame) applyContract(c *Contract, rel string, callee *ssa.Function, arg
 			if label == "" {
 				label = fmt.Sprintf("r%d", i)
 			}
+			if vc.refining {
+				// the implementation's precondition speaks about the receiver's fields (an object invariant that the
+				// interface cannot state): assumed here, established by the constructor's contract
+				vc.assume(reach, envPre.boolExpr(r.E))
+				continue
+			}
 			vc.oblige(fmt.Sprintf("pre@%s#%d", rel, ord), label, reach, envPre.boolExpr(r.E), pos, r.Src, nil)
 		}
 		// implicit: pointer parameters of a callee under contract are non-nil
